@@ -12,6 +12,7 @@
    `clone_from`) and fixed allowances; the harness measures the real peak heap with a counting
    allocator against it, and against itself for growing n (saturation).  Hence `_partial`.
    Statements only; proofs live in proofs/MemProofs.v. *)
+Require Import FstV.Fst FstV.proofs.BuilderInv FstV.proofs.BuilderBasics FstV.proofs.BuilderNoPanic.
 Require Import FstV.Base FstV.Node FstV.Registry FstV.Builder FstV.Mem FstV.proofs.MemProofs.
 Require Import Coq.FSets.FMapPositive.
 
@@ -86,6 +87,21 @@ Proof.
   exact (run_calls_inv Sigma rows cols maxkey ops _ b' rs (binv_new Sigma rows cols maxkey ty) Hk Hrun Hnp).
 Qed.
 
+(* the no-panic premise discharged (BuilderNoPanic.calls_never_panic, itself resting on the full
+   builder invariant): for EVERY sequence of calls - valid, duplicate, out of order, empty keys -
+   whose keys are bytes, whose values fit in u64 and whose accepted part fits the size budget, the
+   state after the calls is within the bound, which does not depend on the number of calls *)
+Theorem C13_logical_size_bounded : forall (Sigma : list N) (maxkey : nat) ty rows cols ops,
+  Forall op_ok ops -> size_ok_ops (accepted_ops None ops) -> keys_in Sigma maxkey ops ->
+  builder_logical_size (fst (run_calls (new_builder ty rows cols) ops))
+    <= builder_bound rows cols (N.of_nat (length Sigma)) (N.of_nat maxkey).
+Proof.
+  intros Sigma maxkey ty rows cols ops Hok Hsz Hk.
+  pose proof (calls_never_panic ty rows cols ops Hok Hsz) as Hnp.
+  destruct (run_calls (new_builder ty rows cols) ops) as [b' rs] eqn:Hrun. cbn [fst snd] in *.
+  exact (C13_logical_size_bounded_partial Sigma maxkey ty rows cols ops b' rs Hrun Hnp Hk).
+Qed.
+
 (* the same for extend_iter / extend_stream / from_iter (stop at the first error) *)
 Theorem C13_logical_size_bounded_extend_partial : forall (Sigma : list N) (maxkey : nat) ty rows cols ops b',
   run_extend (new_builder ty rows cols) ops = (b', Ok tt) -> keys_in Sigma maxkey ops ->
@@ -127,6 +143,7 @@ Check C13_logical_size_bounded_partial : forall (Sigma : list N) (maxkey : nat) 
   run_calls (new_builder ty rows cols) ops = (b', rs) -> Forall (fun r => r <> Panic) rs ->
   keys_in Sigma maxkey ops ->
   builder_logical_size b' <= builder_bound rows cols (N.of_nat (length Sigma)) (N.of_nat maxkey).
+Print Assumptions C13_logical_size_bounded.
 Print Assumptions C13_registry_cells_bounded.
 Print Assumptions C13_registry_notfound_in_table.
 Print Assumptions C13_reachable_shape.
